@@ -22,6 +22,6 @@ PROPS['C02']={
  'bounds_statement':'in_toto_verify executed from MIR end-to-end over a ghost link directory: every subset of layout keys and step pubkeys, every u32 threshold, every population of link files (per key absent/present), every signature validity assignment, every hash-map order, within the shape bound.',
  'assumptions':PIPE_ASSUME,
  'obligations':[
-   {'name':'step_authorization','module':'harness.C02','cls':'StepAuthorization','quick':{'nfun':2,'nsig':1},'thorough':{'nfun':3,'nsig':2,'unknown_pubkey':True}},
+   {'name':'step_authorization','module':'harness.C02','cls':'StepAuthorization','quick':{'nfun':2,'nsig':2},'thorough':{'nfun':3,'nsig':2,'unknown_pubkey':True}},
    {'name':'two_steps','module':'harness.C02','cls':'StepAuthorization','tier_only':'thorough','quick':{},'thorough':{'nfun':2,'nsig':1,'two_steps':True}},
  ]}
